@@ -172,11 +172,25 @@ func applyRow(t *rapid.T, c *Case, row Row, op *hx.Op) {
 			target.Dirs = append(target.Dirs, *sk)
 		}
 	}
+	repeated := ""
+	if rapid.IntRange(0, 3).Draw(t, "repeatedDirective") == 0 {
+		// the same directive once more on the selection (ggql accepts that): every use counts,
+		// wherever it stands
+		name := rapid.SampledFrom([]string{"skip", "include"}).Draw(t, "repeatedName")
+		state := rapid.SampledFrom([]string{"lit-true", "lit-false", "var-true", "var-false", "default-true", "default-false"}).Draw(t, "repeatedState")
+		if du := mk(name, state); du != nil {
+			pos := rapid.IntRange(0, len(target.Dirs)).Draw(t, "repeatedPos")
+			ds := append([]hx.DirUse{}, target.Dirs[:pos]...)
+			ds = append(ds, *du)
+			target.Dirs = append(ds, target.Dirs[pos:]...)
+			repeated = fmt.Sprintf(" + @%s(%s) at %d", name, state, pos)
+		}
+	}
 	if rapid.IntRange(0, 2).Draw(t, "foreignDirective") == 0 {
 		withForeignDirective(c, target, rapid.IntRange(0, 2).Draw(t, "foreignPos"))
 	}
 	c.Doc.Number()
-	c.Note = row.String()
+	c.Note = row.String() + repeated
 }
 
 // noteDirective is a directive of the schema's own that requests may put on selections; it says
